@@ -138,7 +138,7 @@ let () =
         let plan = String.sub payload (i + 1) (String.length payload - i - 1) in
         let l = parse_lib plan in
         out id "M" (hex_of_bytes (write_gds_model ts l))
-    | "rd" | "spec" ->
+    | "rd" | "spec" | "gw" ->
         let bs = bytes_of_hex payload in
         (match read_gds_model None bs with
          | Ok l -> out id "M" (dump_lib l)
@@ -154,7 +154,7 @@ let () =
               | Ok l -> out id "M" (dump_lib l)
               | o -> out id "M" (status o))
          | _ -> out id "M" "bad-case")
-    | "info" ->
+    | "info" | "specinfo" ->
         (match gds_info_model (bytes_of_hex payload) with
          | Ok i ->
              let tags l = String.concat "" (List.map (fun (a, b) -> " " ^ string_of_int a ^ ":" ^ string_of_int b) (sort_tags l)) in
